@@ -552,7 +552,11 @@ func Finish(m *Merged, verifDir string, wall time.Duration, minOutcomes int) int
 		for _, e := range r.InfraErrors {
 			fmt.Println("infrastructure error:", e)
 		}
-		return 2
+		// an infrastructure error alone makes the run worthless (exit 2); next to
+		// violations that were reproduced it must not hide them
+		if len(newV) == 0 {
+			return 2
+		}
 	}
 	// the vacuity guard protects a silent pass; a run that found a violation
 	// (possibly cutting shards short) has something to say anyway
